@@ -156,8 +156,10 @@ P = {
  'C11': dict(
   text="PROVED: polymod = BIP173 BCH residue, checksum_verifies, convertbits padding rule and round trip, decode "
        "accepts ⇔ the declarative Spec.ValidSegwit, encode_decode for all versions/lengths, mixed case rejected, and "
-       "the code distance: any 1–4 substitutions anywhere in a valid ≤ 90-character address are rejected "
-       "(detects_le2, detects_le4 — both kernel-checked with the standard axioms: the weight-3/4 bound is reduced to "
+       "the code distance: a same-length string whose LOWER-CASE form differs from a valid ≤ 90-character address "
+       "in 1–4 places is rejected; after ≤ 4 character substitutions the result is rejected unless only letter case "
+       "changed (then mixed case is rejected, all-upper-case is the same address: mixed_case_rejected, "
+       "uppercase_accepted) (detects_le2, detects_le4 — both kernel-checked with the standard axioms: the weight-3/4 bound is reduced to "
        "963 `decide +kernel` shard theorems over a generated, untrusted look-up table whose coverage is itself a "
        "theorem). Truncation/extension/insertion/deletion: T2 only (the BCH code guarantees nothing there). T1: "
        "charset and generator read behaviourally. T2: every single substitution incl. non-ASCII code points with "
@@ -245,9 +247,13 @@ P = {
        "theorems carry AddrProto pv m); the implementation reads nVersion 10300 as 300 (KNOWN FINDING D24, mirrors "
        "Bitcoin Core) and never passes protover to the address parser, so sub-31402 address entries cannot be read "
        "back (KNOWN FINDING D25) — the model is conforming for both and each is recognised only when the "
-       "implementation's answer equals the model's with exactly that substitution. T1: the 17 commands "
-       "covered by messagemap, version constants, chain magic. T2: every single-byte corruption and truncation of "
-       "small frames under the four chains, histories on live objects (in-place edits, chain tours, stream reuse).",
+       "implementation's answer equals the model's with exactly that substitution. T1: the 17 command "
+       "strings exist, chain magic (version constants and class names are evidence, not obligations). T2: every "
+       "single-byte corruption and truncation of small frames under the four chains, histories on live objects "
+       "(in-place edits, chain tours, stream reuse, parse after a parse that raised). For REJECTED frames only what "
+       "the statement gives is compared: an error of the library's families (the truncation error where the frame "
+       "is truncated), nothing returned, position within the frame; returned messages are compared exactly (type, "
+       "fields, position at the frame end, re-framing).",
   note=TB,
   tech="Lean 4 proof (codec round trip with stream position, fault-class decision logic) + tables + correspondence"),
  'C19': dict(
